@@ -482,7 +482,7 @@ def c_spend(sut, ex, c):
         if legacy_bug and (sig2[-1] & 0x1f) == 3:
             expect_fail = False             # still SINGLE without output: the digest stays the constant 1
     elif mut == "key":
-        if S_.d == S_.d2:
+        if S_.d2 in (S_.d, N - S_.d):           # d and n-d are the same x-only key (and d == d2 is no mutation at all)
             applicable = False
         else:
             scr2 = S_.scripts(key=S_.d2 if "leaf" not in scr else S_.d)
